@@ -46,9 +46,6 @@ Proof. unfold call_cb, erase. destruct s as [? ? ? ? ? ? ? ? ? ? ? ? ? ? ? ar lg
 
 Ltac erase_unfold := unfold erase; match goal with s : state |- _ => destruct s; reflexivity end.
 
-Lemma erase_leave_all ms : forall s, erase (leave_all ms s) = leave_all ms (erase s).
-Proof. induction ms as [|m r IH]; intros s; cbn [leave_all]; [reflexivity|]. rewrite IH, erase_call_cb. reflexivity. Qed.
-
 Lemma erase_do_joins ms : forall s, erase (do_joins ms s) = do_joins ms (erase s).
 Proof. induction ms as [|m r IH]; intros s; cbn [do_joins]; [reflexivity|]. rewrite IH, erase_call_cb. reflexivity. Qed.
 
@@ -106,12 +103,14 @@ Lemma flt_erase s n : flt (erase s) n = flt s n. Proof. destruct s; reflexivity.
 
 Lemma erase_drain_q h q : forall s, erase (drain_q h q s) = drain_q h q (erase s).
 Proof.
-  induction q as [|[new rem] q IH]; intros s; cbn [drain_q].
+  induction q as [|it q IH]; intros s; cbn [drain_q].
   - apply erase_set_queue.
-  - replace (filter (flt (erase s)) new) with (filter (flt s) new)
+  - replace (item_batch (erase s) it) with (item_batch s it) by (destruct s, it; reflexivity).
+    replace (filter (flt (erase s)) (fst (item_batch s it))) with (filter (flt s) (fst (item_batch s it)))
       by (apply filter_ext; intros a; symmetry; apply flt_erase).
     rewrite <- erase_set_queue, <- erase_continue_batch, wk_erase.
-    destruct (wk (continue_batch h (filter (flt s) new) [] rem (set_queue q s))); [reflexivity|apply IH].
+    destruct (wk (continue_batch h (filter (flt s) (fst (item_batch s it))) [] (snd (item_batch s it)) (set_queue q s)));
+      [reflexivity|apply IH].
 Qed.
 
 Lemma erase_worker_step h s : erase (worker_step h s) = worker_step h (erase s).
@@ -131,10 +130,7 @@ Lemma erase_on_set_changed ch s : erase (on_set_changed ch s) = on_set_changed c
 Proof. destruct s; reflexivity. Qed.
 
 Lemma erase_send_all_removed s : erase (send_all_removed s) = send_all_removed (erase s).
-Proof.
-  unfold send_all_removed. rewrite erase_leave_all, erase_set_members, erase_set_nodes.
-  destruct s; reflexivity.
-Qed.
+Proof. destruct s; reflexivity. Qed.
 
 Lemma erase_data_changed s : erase (data_changed s) = data_changed (erase s).
 Proof.
@@ -244,15 +240,6 @@ Proof.
   repeat split; congruence.
 Qed.
 
-Lemma leave_all_frame d : forall s,
-  wenv (leave_all d s) = wenv s /\ members (leave_all d s) = members s /\
-  queue (leave_all d s) = queue s /\ wk (leave_all d s) = wk s.
-Proof.
-  induction d as [|m r IH]; intros s; cbn [leave_all]; [repeat split|].
-  destruct (IH (call_cb Leave m s)) as (A & B & Cq & D). destruct (call_cb_frame Leave m s) as (A' & B' & C' & D').
-  repeat split; congruence.
-Qed.
-
 Lemma do_leaves_frame d : forall s,
   wenv (do_leaves d s) = wenv s /\ queue (do_leaves d s) = queue s /\ wk (do_leaves d s) = wk s.
 Proof.
@@ -302,18 +289,20 @@ Qed.
 
 (* ---------------------------------------------------------------------------------------------- *)
 (* per-name reading of a chain of batches                                                          *)
-Definition fold_b (n : name) (qs : list batch) (b : bool) : bool := fold_left (bstep n) qs b.
+Definition fold_b (n : name) (qs : list (option batch)) (b : bool) : bool := fold_left (bstep n) qs b.
 
-(* each batch announces as new only names not held at that point, and never a name it also removes *)
-Fixpoint chain_ok (n : name) (m : bool) (qs : list batch) : bool :=
+(* each batch announces as new only names not held at that point, and never a name it also removes;
+   the all-members-left item empties the set *)
+Fixpoint chain_ok (n : name) (m : bool) (qs : list (option batch)) : bool :=
   match qs with
   | [] => true
-  | bt :: r => negb (m && mem n (fst bt)) && negb (mem n (fst bt) && mem n (snd bt)) && chain_ok n (bstep n m bt) r
+  | None :: r => chain_ok n false r
+  | Some bt :: r => negb (m && mem n (fst bt)) && negb (mem n (fst bt) && mem n (snd bt)) && chain_ok n (bstep n m (Some bt)) r
   end.
 
-Lemma bstep_mono n bt b b' : (b' = true -> b = true) -> bstep n b' bt = true -> bstep n b bt = true.
+Lemma bstep_mono n it b b' : (b' = true -> b = true) -> bstep n b' it = true -> bstep n b it = true.
 Proof.
-  intros H E. unfold bstep in *. apply andb_true_iff in E as [E1 E2]. rewrite E2, andb_true_r.
+  intros H E. destruct it as [bt|]; [|exact E]. unfold bstep in *. apply andb_true_iff in E as [E1 E2]. rewrite E2, andb_true_r.
   destruct b'; [rewrite (H eq_refl); reflexivity|]. cbn in E1. rewrite E1. apply orb_true_r.
 Qed.
 
@@ -325,27 +314,31 @@ Qed.
 
 Lemma chain_ok_mono n qs : forall b b', (b' = true -> b = true) -> chain_ok n b qs = true -> chain_ok n b' qs = true.
 Proof.
-  induction qs as [|bt r IH]; intros b b' H; cbn [chain_ok]; [auto|].
+  induction qs as [|[bt|] r IH]; intros b b' H; cbn [chain_ok]; [auto| |auto].
   intros E. apply andb_true_iff in E as [E E3]. apply andb_true_iff in E as [E1 E2].
-  rewrite E2, (IH _ (bstep n b' bt) (bstep_mono n bt b b' H) E3).
+  rewrite E2, (IH _ (bstep n b' (Some bt)) (bstep_mono n (Some bt) b b' H) E3).
   destruct b'; [rewrite (H eq_refl) in E1; rewrite E1|]; reflexivity.
 Qed.
 
 Lemma fold_b_app n qs bt m : fold_b n (qs ++ [bt]) m = bstep n (fold_b n qs m) bt.
 Proof. unfold fold_b. rewrite fold_left_app. reflexivity. Qed.
 
-Lemma chain_ok_app n bt qs : forall m,
-  chain_ok n m (qs ++ [bt]) =
-  chain_ok n m qs && (negb (fold_b n qs m && mem n (fst bt)) && negb (mem n (fst bt) && mem n (snd bt))).
+Lemma chain_ok_app n it qs : forall m,
+  chain_ok n m (qs ++ [it]) =
+  chain_ok n m qs && match it with
+                     | Some bt => negb (fold_b n qs m && mem n (fst bt)) && negb (mem n (fst bt) && mem n (snd bt))
+                     | None => true
+                     end.
 Proof.
-  induction qs as [|b r IH]; intros m; cbn [chain_ok app fold_b fold_left].
-  - rewrite andb_true_r. reflexivity.
+  induction qs as [|[b|] r IH]; intros m; cbn [chain_ok app fold_b fold_left].
+  - destruct it; cbn [chain_ok]; rewrite ?andb_true_r; reflexivity.
   - rewrite IH. unfold fold_b. rewrite !andb_assoc. reflexivity.
+  - rewrite IH. reflexivity.
 Qed.
 
 (* chain_ok and fold_b look at the batches only through membership *)
 Lemma chain_ok_head_ext n m new new' rem qs :
-  mem n new' = mem n new -> chain_ok n m ((new', rem) :: qs) = chain_ok n m ((new, rem) :: qs).
+  mem n new' = mem n new -> chain_ok n m (Some (new', rem) :: qs) = chain_ok n m (Some (new, rem) :: qs).
 Proof. intros E. cbn [chain_ok fst snd]. unfold bstep. cbn [fst snd]. rewrite E. reflexivity. Qed.
 
 (* ---------------------------------------------------------------------------------------------- *)
@@ -445,7 +438,8 @@ Qed.
 
 (* ---------------------------------------------------------------------------------------------- *)
 (* the notification worker                                                                         *)
-Definition qpart (s : state) : list batch := map (fun b => (filter (flt s) (fst b), snd b)) (queue s).
+Definition qpart (s : state) : list (option batch) :=
+  map (option_map (fun b => (filter (flt s) (fst b), snd b))) (queue s).
 
 Lemma qpart_ext s s' : filt s' = filt s -> queue s' = queue s -> qpart s' = qpart s.
 Proof. intros F Q. unfold qpart, flt. rewrite F, Q. reflexivity. Qed.
@@ -455,7 +449,7 @@ Proof. unfold wenv. intros H. congruence. Qed.
 
 Record WI (s : state) : Prop := {
   wi_chain : forall n, chain_ok n (mem n (members s)) (outstanding s) = true;
-  wi_qnd : forall b, In b (queue s) -> NoDup (fst b);
+  wi_qnd : forall b, In (Some b) (queue s) -> NoDup (fst b);
   wi_wnd : forall w, wk s = Some w -> NoDup (w_cur w :: w_todo w ++ w_done w);
   wi_view : forall n, mem n (view (log s)) = mem n (members s);
   wi_mnd : NoDup (members s);
@@ -481,25 +475,25 @@ Qed.
 
 Lemma chain_ok_head_weaken n m new new' rem qs :
   (mem n new' = true -> mem n new = true) ->
-  chain_ok n m ((new, rem) :: qs) = true -> chain_ok n m ((new', rem) :: qs) = true.
+  chain_ok n m (Some (new, rem) :: qs) = true -> chain_ok n m (Some (new', rem) :: qs) = true.
 Proof.
   intros H E. cbn [chain_ok fst snd] in *. apply andb_true_iff in E as [E E3]. apply andb_true_iff in E as [E1 E2].
-  assert (M : bstep n m (new', rem) = true -> bstep n m (new, rem) = true).
+  assert (M : bstep n m (Some (new', rem)) = true -> bstep n m (Some (new, rem)) = true).
   { unfold bstep. cbn [fst snd]. destruct (mem n new'); [rewrite (H eq_refl); auto|].
     destruct m; cbn; auto. intros X. destruct (mem n new); cbn; [|discriminate]. destruct (mem n rem); auto. }
-  rewrite (chain_ok_mono n qs _ _ M E3), andb_true_r.
+  apply andb_true_iff. split; [|exact (chain_ok_mono n qs _ _ M E3)].
   destruct (mem n new'); [rewrite (H eq_refl) in *; rewrite E1, E2; reflexivity|].
   rewrite andb_false_r. reflexivity.
 Qed.
 
 Lemma continue_batch_WI h todo done rem s :
-  (forall n, chain_ok n (mem n (members s)) ((todo ++ done, rem) :: qpart s) = true) ->
-  NoDup (todo ++ done) -> (forall b, In b (queue s) -> NoDup (fst b)) ->
+  (forall n, chain_ok n (mem n (members s)) (Some (todo ++ done, rem) :: qpart s) = true) ->
+  NoDup (todo ++ done) -> (forall b, In (Some b) (queue s) -> NoDup (fst b)) ->
   (forall n, mem n (view (log s)) = mem n (members s)) -> NoDup (members s) -> wf_log (log s) = true ->
   WI (continue_batch h todo done rem s) /\ wenv (continue_batch h todo done rem s) = wenv s /\
   queue (continue_batch h todo done rem s) = queue s /\
   (forall n, expects (continue_batch h todo done rem s) n =
-             fold_b n (qpart s) (bstep n (mem n (members s)) (todo ++ done, rem))).
+             fold_b n (qpart s) (bstep n (mem n (members s)) (Some (todo ++ done, rem)))).
 Proof.
   intros Hc Hnd Hq Hv Hm Hw. unfold continue_batch. pose proof (pick_spec h todo) as P.
   destruct (pick h todo) as [[nx rest]|].
@@ -547,28 +541,43 @@ Proof.
       unfold bstep. cbn [fst snd]. rewrite orb_comm. reflexivity.
 Qed.
 
+Lemma item_head s it n r :
+  let m := mem n (members s) in
+  let hd := Some (filter (flt s) (fst (item_batch s it)) ++ [], snd (item_batch s it)) in
+  let it' := option_map (fun b : batch => (filter (flt s) (fst b), snd b)) it in
+  bstep n m hd = bstep n m it' /\ (chain_ok n m (it' :: r) = true -> chain_ok n m (hd :: r) = true).
+Proof.
+  destruct it as [[new rem]|]; cbn [item_batch option_map fst snd].
+  - rewrite app_nil_r. split; auto.
+  - cbn [filter app]. split.
+    + unfold bstep. cbn [fst snd]. rewrite mem_nil. destruct (mem n (members s)); reflexivity.
+    + cbn [chain_ok fst snd]. unfold bstep. cbn [fst snd]. rewrite !mem_nil.
+      destruct (mem n (members s)); cbn [andb negb orb]; auto.
+Qed.
+
 Lemma drain_q_WI h q : forall s, queue s = q -> wk s = None -> WI s ->
   WI (drain_q h q s) /\ wenv (drain_q h q s) = wenv s /\ (forall n, expects (drain_q h q s) n = expects s n).
 Proof.
-  induction q as [|[new rem] q IH]; intros s Hq Hk I; cbn [drain_q].
+  induction q as [|it q IH]; intros s Hq Hk I; cbn [drain_q].
   - assert (E : set_queue [] s = s) by (rewrite <- Hq; destruct s; reflexivity). rewrite E. auto.
-  - set (s0 := set_queue q s).
-    assert (Q0 : qpart s = (filter (flt s) new, rem) :: qpart s0).
-    { unfold qpart. rewrite Hq. reflexivity. }
-    assert (O : outstanding s = (filter (flt s) new, rem) :: qpart s0).
-    { unfold outstanding. rewrite Hk. cbn [app]. exact Q0. }
+  - set (s0 := set_queue q s). set (bt := item_batch s it).
+    set (it' := option_map (fun b : batch => (filter (flt s) (fst b), snd b)) it).
+    assert (O : outstanding s = it' :: qpart s0).
+    { unfold outstanding. rewrite Hk. cbn [app]. rewrite Hq. reflexivity. }
     destruct I as [Ic Iq Iw Iv Im If].
-    destruct (continue_batch_WI h (filter (flt s) new) [] rem s0) as (W1 & E1 & Q1 & X1).
-    + intros n. rewrite app_nil_r. specialize (Ic n). rewrite O in Ic. exact Ic.
-    + rewrite app_nil_r. apply NoDup_filter. apply (Iq (new, rem)). rewrite Hq. left. reflexivity.
+    destruct (continue_batch_WI h (filter (flt s) (fst bt)) [] (snd bt) s0) as (W1 & E1 & Q1 & X1).
+    + intros n. specialize (Ic n). rewrite O in Ic. exact (proj2 (item_head s it n (qpart s0)) Ic).
+    + rewrite app_nil_r. apply NoDup_filter. subst bt. destruct it as [b|]; cbn [item_batch fst]; [|constructor].
+      apply (Iq b). rewrite Hq. left. reflexivity.
     + intros b Hb. apply Iq. rewrite Hq. right. exact Hb.
     + exact Iv.
     + exact Im.
     + exact If.
     + change (wenv s0) with (wenv s) in E1.
-      set (s1 := continue_batch h (filter (flt s) new) [] rem s0) in *.
+      set (s1 := continue_batch h (filter (flt s) (fst bt)) [] (snd bt) s0) in *.
       assert (X : forall n, expects s1 n = expects s n).
-      { intros n. rewrite X1, app_nil_r. unfold expects. rewrite O. reflexivity. }
+      { intros n. rewrite X1. unfold expects. rewrite O. cbn [fold_left]. unfold fold_b. f_equal.
+        exact (proj1 (item_head s it n [])). }
       destruct (wk s1) eqn:K1.
       * split; [exact W1|split; [exact E1|exact X]].
       * destruct (IH s1 Q1 K1 W1) as (W2 & E2 & X2). split; [exact W2|split; [congruence|]].
@@ -582,7 +591,7 @@ Lemma worker_step_WI h s : WI s ->
 Proof.
   intros I. unfold worker_step, drain. destruct (wk s) as [w|] eqn:K.
   - destruct I as [Ic Iq Iw Iv Im If]. specialize (Iw w K).
-    assert (O : outstanding s = (w_cur w :: w_todo w ++ w_done w, w_rem w) :: qpart s).
+    assert (O : outstanding s = Some (w_cur w :: w_todo w ++ w_done w, w_rem w) :: qpart s).
     { unfold outstanding. rewrite K. reflexivity. }
     set (done' := if read_found s w then w_done w ++ [w_cur w] else w_done w).
     assert (Sub : forall n, mem n (w_todo w ++ done') = true -> mem n (w_cur w :: w_todo w ++ w_done w) = true).
@@ -600,8 +609,8 @@ Proof.
     + set (s1 := continue_batch h (w_todo w) done' (w_rem w) s) in *.
       assert (X : forall n, expects s1 n = expects s n \/ (expects s1 n = false /\ parent s && mem n (kids s) = false)).
       { intros n. rewrite X1. unfold expects at 1. rewrite O. cbn [fold_left]. fold (fold_b n (qpart s)).
-        set (b' := bstep n (mem n (members s)) (w_todo w ++ done', w_rem w)).
-        set (b := bstep n (mem n (members s)) (w_cur w :: w_todo w ++ w_done w, w_rem w)).
+        set (b' := bstep n (mem n (members s)) (Some (w_todo w ++ done', w_rem w))).
+        set (b := bstep n (mem n (members s)) (Some (w_cur w :: w_todo w ++ w_done w, w_rem w))).
         assert (Mono : b' = true -> b = true).
         { subst b b'. unfold bstep. cbn [fst snd]. specialize (Sub n).
           destruct (mem n (w_todo w ++ done')); [rewrite (Sub eq_refl); auto|].
@@ -652,7 +661,7 @@ Qed.
 (* _on_set_changed                                                                                 *)
 Lemma osc_outstanding ch t :
   outstanding (on_set_changed ch t) =
-  outstanding t ++ [(filter (flt t) (diff (filter (flt t) ch) (nodes t)), diff (nodes t) (filter (flt t) ch))].
+  outstanding t ++ [Some (filter (flt t) (diff (filter (flt t) ch) (nodes t)), diff (nodes t) (filter (flt t) ch))].
 Proof.
   unfold outstanding, on_set_changed. cbn [wk queue set_queue set_nodes]. rewrite map_app, app_assoc. reflexivity.
 Qed.
@@ -678,7 +687,8 @@ Proof.
     change (fold_b n (outstanding t) (mem n (members t))) with (expects t n).
     specialize (E1 n). destruct (expects t n); [rewrite (E1 eq_refl)|];
       destruct (mem n ch), (flt t n), (mem n (nodes t)); reflexivity.
-  - intros b Hb. cbn [queue on_set_changed set_queue set_nodes] in Hb. apply in_app_or in Hb as [Hb|[<-|[]]]; [apply Iq; exact Hb|].
+  - intros b Hb. cbn [queue on_set_changed set_queue set_nodes] in Hb. apply in_app_or in Hb as [Hb|[Hb|[]]]; [apply Iq; exact Hb|].
+    inversion Hb; subst b.
     cbn [fst]. apply NoDup_diff. apply NoDup_filter. exact Hch.
   - exact Iw.
   - exact Iv.
@@ -702,58 +712,32 @@ Qed.
 
 (* ---------------------------------------------------------------------------------------------- *)
 (* _send_all_removed                                                                               *)
-Lemma leave_all_log L : forall s,
-  (forall n, mem n (view (log s)) = mem n L) -> NoDup L -> wf_log (log s) = true ->
-  (forall n, mem n (view (log (leave_all L s))) = false) /\ wf_log (log (leave_all L s)) = true.
+Lemma sar_outstanding t : outstanding (send_all_removed t) = outstanding t ++ [None].
 Proof.
-  induction L as [|m r IH]; intros s Hv Hn Hw; cbn [leave_all].
-  - split; [intros n; rewrite Hv; reflexivity|exact Hw].
-  - inversion Hn as [|? ? Hm Hr]; subst. destruct (call_cb_log Leave m s) as (b & Lg).
-    apply IH; [|exact Hr|].
-    + intros n. rewrite Lg. cbn [view ev_kind ev_name]. rewrite mem_remove_z, Hv, mem_cons.
-      destruct (Z.eqb_spec n m) as [->|]; [|rewrite andb_true_r; reflexivity].
-      cbn. destruct (mem m r) eqn:E; [|reflexivity]. apply mem_In in E. contradiction.
-    + rewrite Lg. cbn [wf_log ev_kind ev_name]. rewrite Hw, Hv, mem_cons, Z.eqb_refl. reflexivity.
+  unfold outstanding, send_all_removed. cbn [wk queue set_queue set_nodes]. rewrite map_app, app_assoc. reflexivity.
 Qed.
 
-Definition wenv2 (s : state) :=
-  (filt s, started s, parent s, pz s, zx s, kids s, dw s, cw s, pending s, dver s, watching s).
+Lemma sar_expects t n : expects (send_all_removed t) n = false.
+Proof. unfold expects. rewrite sar_outstanding, fold_left_app. reflexivity. Qed.
 
-Lemma sar_frame t :
-  wenv2 (send_all_removed t) = wenv2 t /\ members (send_all_removed t) = [] /\ nodes (send_all_removed t) = [] /\
-  queue (send_all_removed t) = queue t /\ wk (send_all_removed t) = wk t.
+Lemma sar_WI t : WI t -> WI (send_all_removed t).
 Proof.
-  unfold send_all_removed.
-  destruct (leave_all_frame (members t) (set_members [] (set_nodes [] t))) as (A & B & Cq & D).
-  unfold wenv in A. unfold wenv2. cbn in A, B, Cq, D. injection A as A1 A2 A3 A4 A5 A6 A7 A8 A9 A10 A11 A12.
-  repeat split; try assumption. congruence.
+  intros [Ic Iq Iw Iv Im If]. split.
+  - intros n. rewrite sar_outstanding, chain_ok_app. change (members (send_all_removed t)) with (members t).
+    rewrite Ic. reflexivity.
+  - intros b Hb. cbn [queue send_all_removed set_queue set_nodes] in Hb.
+    apply in_app_or in Hb as [Hb|[Hb|[]]]; [apply Iq; exact Hb|discriminate].
+  - exact Iw.
+  - exact Iv.
+  - exact Im.
+  - exact If.
 Qed.
-
-Lemma sar_WI t : WI t -> queue t = [] -> wk t = None -> WI (send_all_removed t).
-Proof.
-  intros [Ic Iq Iw Iv Im If] Q K. destruct (sar_frame t) as (_ & M & _ & Q' & K').
-  destruct (leave_all_log (members t) (set_members [] (set_nodes [] t)) Iv Im If) as (Lv & Lw).
-  fold (send_all_removed t) in Lv, Lw. split.
-  - intros n. unfold outstanding. rewrite K', K, Q', Q. reflexivity.
-  - rewrite Q', Q. intros b [].
-  - rewrite K', K. discriminate.
-  - intros n. rewrite Lv, M. reflexivity.
-  - rewrite M. constructor.
-  - exact Lw.
-Qed.
-
-Lemma sar_expects t n : queue t = [] -> wk t = None -> expects (send_all_removed t) n = false.
-Proof.
-  intros Q K. destruct (sar_frame t) as (_ & M & _ & Q' & K').
-  unfold expects, outstanding. rewrite K', K, Q', Q, M. reflexivity.
-Qed.
-
 
 (* ---------------------------------------------------------------------------------------------- *)
 (* invariants                                                                                      *)
 Definition cur_ver (s : state) : option Z := if parent s then Some (pz s) else None.
 
-(* InvA: holds along every history that respects the fence guard G1 *)
+(* InvA: holds along every history *)
 Record InvA (s : state) : Prop := {
   ia_pre : started s = false ->
            dw s = false /\ cw s = 0%nat /\ pending s = [] /\ queue s = [] /\ wk s = None /\
@@ -936,9 +920,6 @@ Record PreA (t : state) : Prop := {
   pa_wi : WI t;
   pa_e1 : forall n, expects t n = true -> mem n (nodes t) = true }.
 
-Definition sar_runs (f : bool) (t : state) : bool :=
-  negb (parent t) && (f || match dver t with Some _ => true | None => false end).
-
 Lemma data_body_unfold f t :
   data_body f t =
   let t1 := set_dver (cur_ver t) (set_dw true t) in
@@ -949,10 +930,9 @@ Lemma data_body_unfold f t :
   else t1.
 Proof. reflexivity. Qed.
 
-Lemma data_body_invA f t :
-  PreA t -> (sar_runs f t = true -> queue t = [] /\ wk t = None) -> InvA (data_body f t).
+Lemma data_body_invA f t : PreA t -> InvA (data_body f t).
 Proof.
-  intros [Pst Ppd Pabs Pkids Pwat Pfresh Pwi Pe1] Fence. rewrite data_body_unfold. cbv zeta.
+  intros [Pst Ppd Pabs Pkids Pwat Pfresh Pwi Pe1]. rewrite data_body_unfold. cbv zeta.
   set (t1 := set_dver (cur_ver t) (set_dw true t)).
   assert (W1 : WI t1) by (apply (WI_ext t); try reflexivity; exact Pwi).
   assert (X1 : forall n, expects t1 n = expects t n) by (apply expects_ext; reflexivity).
@@ -983,27 +963,19 @@ Proof.
         -- intros _ n. unfold on_set_changed. subst t2 t1. sp. reflexivity.
         -- exact W3.
         -- exact E3.
-    + (* path absent: all removed *)
+    + (* path absent: the all-members-left item is queued *)
       set (t2 := set_watching false t1).
-      assert (QK : queue t2 = [] /\ wk t2 = None).
-      { apply Fence. unfold sar_runs. rewrite P. cbn [negb andb]. unfold cur_ver in Call. rewrite P in Call.
-        destruct f; [reflexivity|]. destruct (dver t); [reflexivity|discriminate]. }
-      destruct QK as (Q2 & K2).
       assert (W2 : WI t2) by (apply (WI_ext t); try reflexivity; exact Pwi).
-      destruct (sar_frame t2) as (Fr & M & N & Q' & K'). unfold wenv2 in Fr.
-      injection Fr as F1 F2 F3 F4 F5 F6 F7 F8 F9 F10 F11.
-      assert (CV : cur_ver (send_all_removed t2) = cur_ver t) by (unfold cur_ver; rewrite F3, F4; reflexivity).
-      subst t2 t1. sp.
       destruct (Pabs eq_refl) as (Kd & Cw). split.
-      -- rewrite F2, Pst. discriminate.
-      -- rewrite F6, F8. auto.
-      -- rewrite F6. exact Pkids.
-      -- rewrite F7, F9, Ppd. reflexivity.
-      -- intros _. rewrite F10, CV. reflexivity.
-      -- rewrite F11, F10. unfold cur_ver. rewrite P. reflexivity.
-      -- rewrite F8, Cw. lia.
-      -- apply sar_WI; assumption.
-      -- intros n. rewrite sar_expects by assumption. discriminate.
+      -- unfold send_all_removed. subst t2 t1. sp. rewrite Pst. discriminate.
+      -- unfold send_all_removed. subst t2 t1. sp. auto.
+      -- exact Pkids.
+      -- unfold send_all_removed. subst t2 t1. sp. rewrite Ppd. reflexivity.
+      -- unfold send_all_removed. subst t2 t1. sp. unfold cur_ver. sp. reflexivity.
+      -- unfold send_all_removed. subst t2 t1. sp. unfold cur_ver. rewrite P. reflexivity.
+      -- unfold send_all_removed. subst t2 t1. sp. rewrite Cw. lia.
+      -- apply sar_WI. exact W2.
+      -- intros n. rewrite sar_expects. discriminate.
   - (* same version as last time: the function is not called *)
     assert (Ev : cur_ver t = dver t).
     { apply option_eqb_Z_spec. destruct f; [discriminate|]. cbn in Call. apply negb_false_iff in Call. exact Call. }
@@ -1026,26 +998,22 @@ Proof.
   pose proof I as [Ipre Iabs Ikids Idw Iver Iwat Ifresh Iwi Ie1].
   destruct (Ipre St) as (a1 & a2 & a3 & a4 & a5 & a6 & a7 & a8 & a9 & a10).
   apply data_body_invA.
-  - split; sp; auto.
-    + rewrite a3. reflexivity.
-    + apply (WI_ext s); try reflexivity. exact Iwi.
-  - intros _. sp. auto.
+  split; sp; auto.
+  - rewrite a3. reflexivity.
+  - apply (WI_ext s); try reflexivity. exact Iwi.
 Qed.
 
-Lemma invA_deliver s : InvA s -> guard_fence s Deliver = true -> InvA (step s Deliver).
+Lemma invA_deliver s : InvA s -> InvA (step s Deliver).
 Proof.
-  intros I G. cbn [step]. destruct (pending s) as [|[|] r] eqn:Pe; [exact I| |].
+  intros I. cbn [step]. destruct (pending s) as [|[|] r] eqn:Pe; [exact I| |].
   - (* data watch *)
     assert (St : started s = true) by (apply invA_started_of_pending; [exact I|rewrite Pe; discriminate]).
     pose proof I as [Ipre Iabs Ikids Idw Iver Iwat Ifresh Iwi Ie1].
     specialize (Idw St). rewrite Pe in Idw. cbn [count_pd] in Idw.
     apply data_body_invA.
-    + split; sp; auto.
-      * destruct (dw s); lia.
-      * apply (WI_ext s); try reflexivity. exact Iwi.
-    + unfold sar_runs. sp. cbn [orb]. intros H. apply andb_true_iff in H as [H1 H2].
-      apply negb_true_iff in H1. unfold guard_fence in G. rewrite Pe, H1 in G.
-      destruct (dver s); [|discriminate]. destruct (queue s); [|discriminate]. destruct (wk s); [discriminate|]. auto.
+    split; sp; auto.
+    + destruct (dw s); lia.
+    + apply (WI_ext s); try reflexivity. exact Iwi.
   - (* children watch *)
     assert (St : started s = true) by (apply invA_started_of_pending; [exact I|rewrite Pe; discriminate]).
     pose proof I as [Ipre Iabs Ikids Idw Iver Iwat Ifresh Iwi Ie1].
@@ -1067,24 +1035,23 @@ Proof.
       * intros _. specialize (Idw St). rewrite Pe in Idw. exact Idw.
 Qed.
 
-Lemma invA_step s l : InvA s -> guard_fence s l = true -> InvA (step s l).
+Lemma invA_step s l : InvA s -> InvA (step s l).
 Proof.
-  intros I G. destruct l.
+  intros I. destruct l.
   - apply invA_start; exact I.
   - apply invA_create_parent; exact I.
   - apply invA_delete_parent; exact I.
   - apply invA_touch_parent; exact I.
   - apply invA_create; exact I.
   - apply invA_delete; exact I.
-  - apply invA_deliver; assumption.
+  - apply invA_deliver; exact I.
   - apply invA_worker; exact I.
   - apply invA_raise; exact I.
 Qed.
 
-Lemma invA_run ls : forall s, InvA s -> guarded guard_fence s ls = true -> InvA (run s ls).
+Lemma invA_run ls : forall s, InvA s -> InvA (run s ls).
 Proof.
-  induction ls as [|l r IH]; intros s I G; [exact I|]. cbn [guarded] in G. apply andb_true_iff in G as [G1 G2].
-  cbn [run fold_left]. apply IH; [apply invA_step; assumption|exact G2].
+  induction ls as [|l r IH]; intros s I; [exact I|]. cbn [run fold_left]. apply IH. apply invA_step. exact I.
 Qed.
 
 (* ---------------------------------------------------------------------------------------------- *)
@@ -1132,12 +1099,12 @@ Proof.
 Qed.
 
 (* ---------------------------------------------------------------------------------------------- *)
-(* InvB: holds along every history that respects G1, G2 and G3                                     *)
+(* InvB: holds along every history that respects G2 and G3                                         *)
 Record InvB (s : state) : Prop := {
   ib_alive : parent s = true -> watching s = true -> (1 <= cw s + count_pc (pending s))%nat;
   ib_pd : (1 <= count_pd (pending s))%nat -> parent s = false -> dver s <> None;
   ib_settled : started s = true -> parent s = false -> dw s = true ->
-               members s = [] /\ nodes s = [] /\ queue s = [] /\ wk s = None;
+               nodes s = [] /\ forall n, expects s n = false;
   ib_e2 : forall n, mem n (nodes s) = true -> expects s n = false -> parent s && mem n (kids s) = false }.
 
 Lemma invB_init f : InvB (init f).
@@ -1235,20 +1202,20 @@ Proof.
   injection E as E1 E2 E3 E4 E5 E6 E7 E8 E9 E10 E11 E12. split.
   - rewrite E3, E11, E8, E9. exact Bal.
   - rewrite E9, E3, E10. exact Bpd.
-  - rewrite E2, E3, E7. intros H1 H2 H3. destruct (Bse H1 H2 H3) as (M & N & Q & K).
-    unfold worker_step, drain. rewrite K, Q. cbn [drain_q]. sp. auto.
+  - rewrite E2, E3, E7, E12. intros H1 H2 H3. destruct (Bse H1 H2 H3) as (N & Ex). split; [exact N|].
+    intros n. destruct (X n) as [Eq|[Ef _]]; [rewrite Eq; apply Ex|exact Ef].
   - intros n. rewrite E12, E3, E6. intros Hn He. destruct (X n) as [Eq|[_ Ef]]; [|exact Ef].
     apply Be2; congruence.
 Qed.
 
 Lemma data_body_invB f t :
-  PreA t -> (sar_runs f t = true -> queue t = [] /\ wk t = None) ->
+  PreA t ->
   (parent t = true -> watching t = true -> (1 <= cw t + count_pc (pending t))%nat) ->
   (f = false -> parent t = false -> dver t <> None) ->
   (forall n, mem n (nodes t) = true -> expects t n = false -> parent t && mem n (kids t) = false) ->
   InvB (data_body f t).
 Proof.
-  intros [Pst Ppd Pabs Pkids Pwat Pfresh Pwi Pe1] Fence Bal Bpd Be2. rewrite data_body_unfold. cbv zeta.
+  intros [Pst Ppd Pabs Pkids Pwat Pfresh Pwi Pe1] Bal Bpd Be2. rewrite data_body_unfold. cbv zeta.
   set (t1 := set_dver (cur_ver t) (set_dw true t)).
   destruct (f || negb (option_eqb Z.eqb (cur_ver t) (dver t))) eqn:Call.
   - destruct (parent t) eqn:P.
@@ -1266,17 +1233,11 @@ Proof.
         -- unfold on_set_changed. subst t2 t1. sp. rewrite Ppd. lia.
         -- unfold on_set_changed. subst t2 t1. sp. rewrite P. discriminate.
         -- intros n Hn He. specialize (E3 n Hn He). unfold on_set_changed. subst t2 t1. sp. exact E3.
-    + set (t2 := set_watching false t1).
-      assert (QK : queue t2 = [] /\ wk t2 = None).
-      { apply Fence. unfold sar_runs. rewrite P. cbn [negb andb]. unfold cur_ver in Call. rewrite P in Call.
-        destruct f; [reflexivity|]. destruct (dver t); [reflexivity|discriminate]. }
-      destruct QK as (Q2 & K2).
-      destruct (sar_frame t2) as (Fr & M & N & Q' & K'). unfold wenv2 in Fr.
-      injection Fr as F1 F2 F3 F4 F5 F6 F7 F8 F9 F10 F11. split.
-      -- rewrite F3. subst t2 t1. sp. rewrite P. discriminate.
-      -- rewrite F9. subst t2 t1. sp. rewrite Ppd. lia.
-      -- intros _ _ _. rewrite M, N, Q', K'. auto.
-      -- intros n. rewrite N. discriminate.
+    + set (t2 := set_watching false t1). split.
+      -- unfold send_all_removed. subst t2 t1. sp. rewrite P. discriminate.
+      -- unfold send_all_removed. subst t2 t1. sp. rewrite Ppd. lia.
+      -- intros _ _ _. split; [reflexivity|]. intros n. apply sar_expects.
+      -- intros n. unfold send_all_removed. subst t2 t1. sp. discriminate.
   - assert (Ev : cur_ver t = dver t).
     { apply option_eqb_Z_spec. destruct f; [discriminate|]. cbn in Call. apply negb_false_iff in Call. exact Call. }
     assert (Ff : f = false) by (destruct f; [discriminate|reflexivity]).
@@ -1296,15 +1257,14 @@ Proof.
   - split; sp; auto.
     + rewrite a3. reflexivity.
     + apply (WI_ext s); try reflexivity. exact Iwi.
-  - intros _. sp. auto.
   - sp. rewrite a10. discriminate.
   - discriminate.
   - sp. rewrite a7. discriminate.
 Qed.
 
-Lemma invB_deliver s : InvA s -> InvB s -> guard_fence s Deliver = true -> InvB (step s Deliver).
+Lemma invB_deliver s : InvA s -> InvB s -> InvB (step s Deliver).
 Proof.
-  intros IA IB G. cbn [step]. destruct (pending s) as [|[|] r] eqn:Pe; [exact IB| |].
+  intros IA IB. cbn [step]. destruct (pending s) as [|[|] r] eqn:Pe; [exact IB| |].
   - assert (St : started s = true) by (apply invA_started_of_pending; [exact IA|rewrite Pe; discriminate]).
     pose proof IA as [Ipre Iabs Ikids Idw Iver Iwat Ifresh Iwi Ie1]. destruct IB as [Bal Bpd Bse Be2].
     specialize (Idw St). rewrite Pe in Idw, Bal, Bpd. cbn [count_pd count_pc] in Idw, Bal, Bpd.
@@ -1312,9 +1272,6 @@ Proof.
     + split; sp; auto.
       * destruct (dw s); lia.
       * apply (WI_ext s); try reflexivity. exact Iwi.
-    + unfold sar_runs. sp. cbn [orb]. intros H. apply andb_true_iff in H as [H1 H2].
-      apply negb_true_iff in H1. unfold guard_fence in G. rewrite Pe, H1 in G.
-      destruct (dver s); [|discriminate]. destruct (queue s); [|discriminate]. destruct (wk s); [discriminate|]. auto.
     + sp. exact Bal.
     + sp. intros _. apply Bpd. lia.
     + exact Be2.
@@ -1339,9 +1296,9 @@ Proof.
 Qed.
 
 Lemma invB_step s l : InvA s -> InvB s ->
-  guard_fence s l = true -> guard_noflap s l = true -> guard_path s l = true -> InvB (step s l).
+  guard_noflap s l = true -> guard_path s l = true -> InvB (step s l).
 Proof.
-  intros IA IB G1 G2 G3. destruct l.
+  intros IA IB G2 G3. destruct l.
   - apply invB_start; assumption.
   - apply invB_create_parent; assumption.
   - apply invB_delete_parent; assumption.
@@ -1356,8 +1313,7 @@ Qed.
 Lemma invAB_run ls : forall s, InvA s -> InvB s -> guarded guard_all s ls = true -> InvA (run s ls) /\ InvB (run s ls).
 Proof.
   induction ls as [|l r IH]; intros s IA IB G; [split; assumption|]. cbn [guarded] in G.
-  apply andb_true_iff in G as [G1 G2]. unfold guard_all in G1.
-  apply andb_true_iff in G1 as [G1 G13]. apply andb_true_iff in G1 as [G11 G12].
+  apply andb_true_iff in G as [G1 G2]. unfold guard_all in G1. apply andb_true_iff in G1 as [G11 G12].
   cbn [run fold_left]. apply IH; [apply invA_step; assumption|apply invB_step; assumption|exact G2].
 Qed.
 
@@ -1383,5 +1339,5 @@ Proof.
     destruct (mem n (filter (flt s) (kids s))) eqn:F; [|reflexivity].
     rewrite mem_filter in F. apply andb_true_iff in F as [F1 F2]. rewrite F1, F2 in Be2.
     specialize (Be2 eq_refl eq_refl). discriminate.
-  - destruct (Bse St eq_refl Dw) as (M & _). rewrite M. reflexivity.
+  - destruct (Bse St eq_refl Dw) as (_ & Ex'). rewrite <- Ex. apply Ex'.
 Qed.
